@@ -21,9 +21,13 @@ EXPLANATION = ('Unbounded Coq theorems over the hand model: byte deletion in rev
                'move down by the holes of the sections before them; a shrunk j / jal relocated by bc_imm11 at the shifted '
                'addresses is a c.j / c.jal going exactly to the symbol (uses C11 c11_exact_rvc_cj) when the new distance fits; '
                'c.j/c.jal are equivalent to j / jal ra. Refuted with machine-checked witnesses: jal rd (rd <> ra) is shrunk to '
-               'c.jal; section addresses are not re-aligned. NOT proved: that the new distance always fits (it does not across '
-               'memory images — code TODO; searched for), the end-to-end composition scan+replace+holes for arbitrary objects '
-               '(covered by correspondence), and "computes the same results" by emulation (no RV32 interpreter was built).')
+               'c.jal; section addresses are not re-aligned. Per-site end-to-end composition (c13_relax_link_site_shrunk / _kept): '
+               'for arbitrary sorted disjoint positive holes of a section, the bytes of a jump site no hole touches are found '
+               'unchanged at new_off of its offset after punching, and the (replacement) relocation applied there at the shifted '
+               'addresses yields a c.j/c.jal (resp. jal) to the symbol — under the explicit hypothesis that the new distance fits '
+               '(exactly what fails across memory images: known finding). NOT proved: the fold of do_relaxations over all '
+               'relocations of an arbitrary object (that holes_of is sorted/disjoint, relocation list bookkeeping; covered by '
+               'correspondence), and "computes the same results" by emulation (no RV32 interpreter was built).')
 TRUSTED = ['hand model coq/Model/Relax.v + Model/Reloc.v (cross-checked per run against Linker.do_relaxations on the same states)',
            'ISA reading in Spec/RelocSpec.v (jal, c.j, c.jal formats and link registers) and its Python twin',
            'tools/py2coq.py for wrap_negative (Gen.bitfun)']
@@ -36,7 +40,9 @@ MANIFEST = {
             'offset minus the holes before it, that sections of an image shift by the holes of earlier sections, and that a shrunk '
             'j / jal ra relocated by its replacement relocation is a c.j / c.jal reaching exactly the symbol; refuted and replayed: '
             'jal rd with rd<>ra is turned into c.jal (fix proposed), shifted sections are not re-aligned (known finding). '
-            'Whole-phase behaviour on arbitrary objects is validated differentially (model vs real linker, relaxed vs unrelaxed '
+            'a per-site composition theorem chains byte patching, hole punching, offset shift and relocation for one jump site '
+            'under the explicit hypothesis that the new distance fits (it does not when only the jump\'s own memory image is '
+            'compacted: known finding). Whole-phase behaviour on arbitrary objects is validated differentially (model vs real linker, relaxed vs unrelaxed '
             'link, every jump decoded), not proved; no emulation of program results',
     'note': 'trusted: Coq kernel, hand models Model/Relax.v and Model/Reloc.v (correspondence per run), ISA reading in '
             'Spec/RelocSpec.v. No axioms.',
@@ -310,7 +316,7 @@ def regen(ctx):
 
 def run(ctx):
     regen(ctx)
-    ok, _ = ctx.build(['Proofs/C13_final.vo'])
+    ok, _ = ctx.build(['Proofs/C13_final.vo', 'Proofs/C13_compose.vo'])
     if ok:
         ctx.check_props('Props/C13.v')
     stats = {}
